@@ -115,11 +115,16 @@ def r2(ctx):
     for bi, t in ctor:
         if t["callee"].endswith("_opt") or t["callee"].endswith("from_local_datetime"):
             d = t["dest"]["local"]
-            users = [(ub, ut) for ub, ut in b.calls(r"Option::<T>::(unwrap\w*|expect)$|LocalResult::<T>::(unwrap|single|earliest|latest)$") if op_local(ut["args"][0]) == d or d in b.slice_op(ut["args"][0]).locals and len(b.slice_op(ut["args"][0]).calls) <= 1]
+            # `.single()` is the checked projection of a LocalResult (None unless exactly one instant): its Option is
+            # what must be matched
+            for ub, ut in b.calls(r"LocalResult::<T>::single$"):
+                if root_local(b, ut["args"][0]) == d or op_local(ut["args"][0]) == d:
+                    d = ut["dest"]["local"]
+            users = [(ub, ut) for ub, ut in b.calls(r"Option::<T>::(unwrap\w*|expect)$|LocalResult::<T>::(unwrap|earliest|latest)$") if op_local(ut["args"][0]) == d or d in b.slice_op(ut["args"][0]).locals and len(b.slice_op(ut["args"][0]).calls) <= 1]
             if users:
                 yield VIOL("C16-R2", "parse/unchecked-use:" + t["callee"].split("::")[-1], "result of %s is unwrapped instead of matched" % t["callee"], where=b.span_of_block(users[0][0]))
                 continue
-            sw = [a for a in b.live_blocks() if (b.cond_of_switch(a) or {}).get("kind") == "discr" and b.cond_of_switch(a)["place"]["local"] == d]
+            sw = [a for a in b.live_blocks() if (b.cond_of_switch(a) or {}).get("kind") == "discr" and (b.cond_of_switch(a)["place"]["local"] == d or root_local(b, {"copy": {"local": b.cond_of_switch(a)["place"]["local"], "proj": []}}) == d)]
             okm = False
             for a in sw:
                 succs = b.succ(a)
